@@ -149,27 +149,8 @@ class C10(Check):
             except Exception as e:
                 bad(f"trees:raises-{type(e).__name__}:{case['empty']}", dict(error=str(e)[:200]))
 
-            # consumer 2: measurement
-            got_meas = None
-            try:
-                def aux(name, npts):
-                    x, _ = cats.points_around(rng, centres, npts, r)
-                    x = np.concatenate([x, centres])
-                    a, d = gen.xyz_to_radec(x)
-                    return cats.create(tmp / name, cats.table(a, d), centers=cobj)
-
-                unk, ur = aux("unk", 10), aux("ur", 12)
-                cf = yaw.crosscorrelate(cfg, ref, unk, unk_rand=ur, max_workers=nw)[0]
-                got_meas = cf.dd.sum_weights.sum_weights1
-                counters["measurement_cells"] = nb * P
-                if not (got_meas.shape == want_w.shape and np.allclose(got_meas, want_w, rtol=1e-12, atol=0)):
-                    bad(f"measurement:sum_weights-wrong:{closed}", dict(got=np.asarray(got_meas).tolist(), want=want_w.tolist()))
-                if not np.array_equal(cf.dr.sum_weights.sum_weights1, got_meas):
-                    bad("measurement:dd-dr-sum_weights-differ", {})
-            except Exception as e:
-                bad(f"measurement:raises-{type(e).__name__}:{case['empty']}", dict(error=str(e)[:200]))
-
-            # consumer 2b: autocorrelation (both trees binned; the random sample leaves bins empty in some patches)
+            # random reference sample with its own edge-valued redshifts (bins empty in some patches)
+            rnd = want_r = None
             try:
                 x, _ = cats.points_around(rng, centres, 8, r)
                 x = np.concatenate([x, centres])
@@ -184,6 +165,39 @@ class C10(Check):
                 rrec = cats.records(rnd)
                 rmem = bin_members(rrec["z"], edges, closed)
                 want_r = np.array([[float((m & (rrec["pid"] == p)).sum()) for p in range(P)] for m in rmem])
+            except Exception as e:
+                bad(f"randoms:raises-{type(e).__name__}", dict(error=str(e)[:200]))
+
+            # consumer 2: measurement (cross-correlation with both kinds of randoms: the reference randoms are binned too)
+            got_meas = None
+            try:
+                def aux(name, npts):
+                    x, _ = cats.points_around(rng, centres, npts, r)
+                    x = np.concatenate([x, centres])
+                    a, d = gen.xyz_to_radec(x)
+                    return cats.create(tmp / name, cats.table(a, d), centers=cobj)
+
+                unk, ur = aux("unk", 10), aux("ur", 12)
+                cf = yaw.crosscorrelate(cfg, ref, unk, ref_rand=rnd, unk_rand=ur, max_workers=nw)[0]
+                got_meas = cf.dd.sum_weights.sum_weights1
+                counters["measurement_cells"] = nb * P
+                if not (got_meas.shape == want_w.shape and np.allclose(got_meas, want_w, rtol=1e-12, atol=0)):
+                    bad(f"measurement:sum_weights-wrong:{closed}", dict(got=np.asarray(got_meas).tolist(), want=want_w.tolist()))
+                if not np.array_equal(cf.dr.sum_weights.sum_weights1, got_meas):
+                    bad("measurement:dd-dr-sum_weights-differ", {})
+                if rnd is not None:
+                    counters["measurement_cells"] += 2 * nb * P
+                    for nm, got in (("rd", cf.rd.sum_weights.sum_weights1), ("rr", cf.rr.sum_weights.sum_weights1)):
+                        if not (got.shape == want_r.shape and np.allclose(got, want_r, rtol=1e-12, atol=0)):
+                            bad(f"measurement:cross:{nm}.sum_weights1-wrong:{closed}", dict(got=np.asarray(got).tolist(), want=want_r.tolist()))
+                            break
+            except Exception as e:
+                bad(f"measurement:raises-{type(e).__name__}:{case['empty']}", dict(error=str(e)[:200]))
+
+            # consumer 2b: autocorrelation (both trees binned; the random sample leaves bins empty in some patches)
+            try:
+                if rnd is None:
+                    raise RuntimeError("no random catalog")
                 acf = yaw.autocorrelate(cfg, ref, rnd, count_rr=True, max_workers=nw)[0]
                 counters["measurement_cells"] = counters.get("measurement_cells", 0) + 3 * nb * P
                 for nm, got, want in (("dd.sum_weights1", acf.dd.sum_weights.sum_weights1, want_w),
